@@ -48,6 +48,8 @@ func vTokenPayload(text string) uint64 {
 //	                    ('g' with shortest precision switches to %e at exponent
 //	                    >= 6), and such a text is an int64 literal to
 //	                    Parser.matchPrimitive, which tries ParseInt first.
+//	"-0."             the literal text the formatter writes for negative zero
+//	                    reads back as -0 (ParseFloat keeps the sign)
 //	float32/float16: the decorator casts whatever number was lexed, the builder
 //	                    runs ParseFloat(text,32) and, for float16, the real
 //	                    zed.EncodeFloat16(float32(v)).
@@ -73,6 +75,19 @@ func vReadBack(text string, typ zed.Type) vRead {
 			r.b16 = binary.LittleEndian.Uint16(val.Bytes())
 		}
 		return r
+	}
+	if text == "-0." {
+		// the literal spelling of negative zero: not an integer literal
+		// (trailing '.'), ParseFloat("-0.") is -0 of the requested width
+		negZero := math.Copysign(0, -1)
+		switch typ {
+		case zed.TypeFloat64:
+			return vRead{typ: typ, f64: negZero}
+		case zed.TypeFloat32:
+			return vRead{typ: typ, f32: float32(negZero)}
+		default:
+			return vRead{typ: typ, b16: binary.LittleEndian.Uint16(zed.EncodeFloat16(float32(negZero)))}
+		}
 	}
 	if len(text) != 10 {
 		return vRead{}
